@@ -12,10 +12,10 @@ from vlib.core import Case
 PROP = "C20"
 SPEC_MODE = "oracle"
 KEEP_PREFIX = 1
-SIZES = {"quick": 1500, "thorough": 30000}
-BATCH = 1500
+SIZES = {"quick": 4000, "thorough": 100000}
+BATCH = 2000
 SHRINK_BUDGET = 200
-RULE = ("one outlier rule (all three breaker strategies, probe numbers 0..3, bucket counts incl. non-divisors, retry timeouts 1..3000 ms) "
+RULE = ("one outlier rule (12 %: two resources with their own rules over the same addresses) (all three breaker strategies, probe numbers 0..3, bucket counts incl. non-divisors, retry timeouts 1..3000 ms) "
         "on 0..40 callee addresses with per-node failure profiles (healthy / flaky / dead / slow), requests = Entry+TraceCallee(+TraceError)+Exit "
         "in virtual time with steps around the retry timeout and the statistic interval, address-less probes, recycler timer callbacks and "
         "active-recovery successes driven directly, reloads that change MaxEjectionPercent / EnableActiveRecovery only; MaxEjectionPercent from "
@@ -76,6 +76,13 @@ def gen_case(rng, cid, known_region=False):
         pe = pick_percent(rng, nn)
     cb = f"{strat} {retry} {minreq} {interval} {bc} {maxrt} {fb(thr)} {probe}"
     ops = [f"load r {cb} {fb(pe)} {active}"]
+    # sometimes a second resource with its own rule over the same addresses (per-resource isolation)
+    rules = {"r": [cb, pe, active, strat, maxrt]}
+    if not known_region and rng.random() < 0.12:
+        strat2 = rng.choice([1, 2])
+        cb2 = f"{strat2} {rng.choice([1, 50, 1000])} 0 1000 {rng.choice([0, 2])} 0 {fb(1.0)} {rng.choice([0, 1, 2])}"
+        rules["s"] = [cb2, pick_percent(rng, nn), rng.choice([0, 1]), strat2, 0]
+        ops.append(f"load s {cb2} {fb(rules['s'][1])} {rules['s'][2]}")
     addrs = [f"n{i}" for i in range(nn)]
     # failure profile per node: probability of a bad completion
     prof = {}
@@ -87,42 +94,47 @@ def gen_case(rng, cid, known_region=False):
     now = T0
     L = interval // (bc if bc and interval % bc == 0 else 1)
     nops = rng.randint(5, 30) + 2 * nn
-    seen = []
+    seen = {name: [] for name in rules}
+    names = sorted(rules)
     for i in range(nops):
         r = rng.random()
+        res = rng.choice(names)
+        rcb, rpe, ract, rstrat, rmaxrt = rules[res]
+        sn = seen[res]
         if r < 0.22:
             d = rng.choice([0, 1, max(0, retry - 1), retry, retry + 1, L, interval, interval + 1, 2 * interval, rng.randint(0, 2 * retry)])
             now += d
             ops.append(f"clock {now}")
         elif r < 0.75 and addrs:
             # first touch the not-yet-seen addresses, then random ones
-            a = addrs[len(seen)] if len(seen) < nn and rng.random() < 0.7 else rng.choice(addrs)
-            if a not in seen:
-                seen.append(a)
+            a = addrs[len(sn)] if len(sn) < nn and addrs[len(sn)] not in sn and rng.random() < 0.7 else rng.choice(addrs)
+            if a not in sn:
+                sn.append(a)
             bad = rng.random() < prof[a]
-            if strat == 0:
-                rt = rng.choice([maxrt + 1, maxrt + 100]) if bad else rng.choice([0, maxrt])
+            if rstrat == 0:
+                rt = rng.choice([rmaxrt + 1, rmaxrt + 100]) if bad else rng.choice([0, rmaxrt])
                 oc = rng.choice(["ok", "err"]) if rng.random() < 0.2 else "ok"
             else:
                 rt = rng.choice([0, 0, 1, 7, 100])
                 oc = "err" if bad else "ok"
             now += rt
-            ops.append(f"call r {a} {oc} {rt}")
+            ops.append(f"call {res} {a} {oc} {rt}")
         elif r < 0.87:
-            ops.append("probe r")
-        elif r < 0.92 and seen:
-            ops.append(f"recycle r {rng.choice(seen)}")
-        elif r < 0.96 and seen and active:
-            ops.append(f"retry r {rng.choice(seen)} {rng.choice([0, 1, maxrt + 1])}")
+            ops.append(f"probe {res}")
+        elif r < 0.92 and sn:
+            ops.append(f"recycle {res} {rng.choice(sn)}")
+        elif r < 0.96 and sn and ract:
+            ops.append(f"retry {res} {rng.choice(sn)} {rng.choice([0, 1, rmaxrt + 1])}")
         elif r < 0.99 and not known_region:
             if rng.random() < 0.5:
-                active = 1 - active
+                rules[res][2] = 1 - ract
             else:
-                pe = pick_percent(rng, nn)
-            ops.append(f"load r {cb} {fb(pe)} {active}")
+                rules[res][1] = pick_percent(rng, nn)
+            ops.append(f"load {res} {rcb} {fb(rules[res][1])} {rules[res][2]}")
         else:
-            ops.append("probe r")
-    ops.append("probe r")
+            ops.append(f"probe {res}")
+    for name in names:
+        ops.append(f"probe {name}")
     return Case(cid, ops, tags=("known-region",) if known_region else ())
 
 
@@ -149,8 +161,8 @@ def densify(ops, rng):
     out = []
     for o in ops:
         out.append(o)
-        if rng.random() < 0.4 and not o.startswith("cap"):
-            out.append("probe r")
+        if rng.random() < 0.4 and o.split()[0] in ("call", "probe", "recycle", "retry", "load"):
+            out.append("probe " + o.split()[1])
     return out
 
 
